@@ -3,7 +3,7 @@
    Standing hypothesis, carried by the types: a response Message has a [bytes] payload (it serialises). A [str] payload is
    the open finding C09:unencodable-response (known_findings.d/C09.json), exercised by an oracle-only stream of the check. *)
 From Coq Require Import String Ascii.
-From Verif Require Import Lib.Py Lib.Tactics Model.C09 Model.C09Stack Proofs.C09 Proofs.C09Stack.
+From Verif Require Import Lib.Py Lib.Tactics Model.C09 Model.C09Stack Proofs.C09 Proofs.C09Stack Proofs.C09Wire.
 Open Scope Z_scope.
 
 (* ================================================================ 1. the decision table of final responses *)
@@ -50,6 +50,12 @@ Theorem C09_renderable_error : forall s r methods c t, handled s r methods -> r_
           end).
 Proof. exact renderable_error. Qed.
 Print Assumptions C09_renderable_error.
+(* ... NoRequestInterface(RuntimeError, ...) included: its constructor argument never reaches the message, the class text is sent *)
+Theorem C09_renderable_error_no_request_interface : forall s r methods t, handled s r methods ->
+  r_outcome r = Raise_ (cre E_NoRequestInterface t) ->
+  final_message (Some s) r = Some (mk_msg 165 (cre_default_text E_NoRequestInterface)).
+Proof. exact renderable_error_no_request_interface. Qed.
+Print Assumptions C09_renderable_error_no_request_interface.
 Theorem C09_custom_renderable : forall s r methods m, handled s r methods ->
   r_outcome r = Raise_ (ERenderable (TMReturn (VMsg m))) -> final_message (Some s) r = Some m.
 Proof. exact custom_renderable. Qed.
@@ -164,7 +170,7 @@ Proof. exact step_frame. Qed.
 Print Assumptions C09_step_frame.
 (* from the message layer to the wire: a final response is piggy-backed on the pending ACK, or sent NON/CON with a
    fresh message id, or waits in the per-remote backlog; No-Response suppression leaves at most the empty ACK *)
-Theorem C09_send_message_cases : forall s r m,
+Theorem C09_send_message_cases : forall s r m, is_response (code_of m) = true ->
   let '(s', out) := send_message s r m in
   match lookup_piggy (key_of r) (s_piggy s) with
   | Some (mid, _) =>
@@ -178,7 +184,57 @@ Theorem C09_send_message_cases : forall s r m,
   end.
 Proof. exact send_message_cases. Qed.
 Print Assumptions C09_send_message_cases.
+(* a response to a NON request, and any response while the request's ACK is still pending, is on the wire in the very step
+   in which it is handed over: exactly one datagram answering the request (unless No-Response applies) *)
+Theorem C09_response_on_wire_at_once : forall s r m, is_response (code_of m) = true -> suppressed m = false ->
+  r_con r = false \/ lookup_piggy (key_of r) (s_piggy s) <> None ->
+  exists t mid, snd (send_message s r m) = [mk_wire r t mid m] /\ is_answer (r_id r) (mk_wire r t mid m) = true.
+Proof. exact response_on_wire_at_once. Qed.
+Print Assumptions C09_response_on_wire_at_once.
+(* OPEN FINDING C09:non-response-code-sent — "whatever the handler does" fails for a returned Message whose code is not a
+   response code (EMPTY, a request code, 6.xx/7.xx): the whole response branch of send_message is skipped, the message goes
+   out as a CON/NON of our own carrying the request's token, a CON request only gets its empty ACK, no response follows *)
+Theorem C09_send_message_non_response : forall s r m, is_response (code_of m) = false -> send_message s r m = send_plain s r m.
+Proof. exact send_message_non_response. Qed.
+Print Assumptions C09_send_message_non_response.
+Theorem C09_non_response_code_refuted :
+  let r := {| r_id := 0; r_remote := 0; r_token := [7]; r_mid := 7; r_con := true; r_code := GET; r_path := [1]; r_nr := None; r_obs := None;
+              r_slow := false; r_outcome := Return (VMsg (mk_msg GET [120])) |} in
+  let srv := Some [([1], Plain [GET])] in
+  finalising srv r /\ final_message srv r = Some (mk_msg GET [120]) /\
+  map (fun o => map (fun w => (w_type w, w_mid w, w_code w, w_token w)) (fst (fst o))) (fst (run_script srv 100 [Req r; Tick 100000]))
+  = [[(T_CON, 100, GET, [7])]; [(T_ACK, 7, EMPTY, [])]].
+Proof. cbv zeta. split; [exact I|]. split; vm_compute; reflexivity. Qed.
+Print Assumptions C09_non_response_code_refuted.
 
+(* ---- the datagrams of whole runs (the real [run], from the initial state) ---- *)
+(* In every run — any arrivals incl. token reuse, any completions, failures, time steps, ACKs — the non-empty datagrams that
+   answer a finalising request r are at most one, go to r's remote with r's token, and carry the code, payload and options
+   of r's own final message (section 1).  "At least one" is C09_exactly_one_final (handed to the message layer) followed by
+   C09_response_on_wire_at_once (NON / still piggy-backable) or by the client's ACKs releasing the NSTART backlog (CON: C14). *)
+Theorem C09_wire_at_most_one_with_token : forall srv mid0 evs r m,
+  NoDup (req_ids evs) -> In (Req r) evs -> finalising srv r -> final_message srv r = Some m ->
+  let ws := answers (r_id r) (wires (snd (run srv (init_state mid0) evs))) in
+  (length ws <= 1)%nat /\ forall w, In w ws -> carries r m w.
+Proof. exact wire_at_most_one. Qed.
+Print Assumptions C09_wire_at_most_one_with_token.
+(* isolation on the wire: two arbitrary runs that both contain request r answer it with the same code, token, payload,
+   options and destination — nothing the neighbours do (their outcomes, failures, the shared NSTART backlog, message ids,
+   pending ACKs) shows in the content of r's answer; only whether a CON answer has left the backlog depends on the ACKs *)
+Theorem C09_answers_depend_on_own_request : forall srv mid0 mid0' evs evs' r m,
+  NoDup (req_ids evs) -> NoDup (req_ids evs') -> In (Req r) evs -> In (Req r) evs' -> finalising srv r -> final_message srv r = Some m ->
+  forall w w', In w (answers (r_id r) (wires (snd (run srv (init_state mid0) evs)))) ->
+               In w' (answers (r_id r) (wires (snd (run srv (init_state mid0') evs')))) ->
+  (w_remote w, w_token w, w_code w, w_payload w, w_cf w, w_obs w) = (w_remote w', w_token w', w_code w', w_payload w', w_cf w', w_obs w').
+Proof. exact answers_depend_on_own_request. Qed.
+Print Assumptions C09_answers_depend_on_own_request.
+(* the exception to "every request is answered" besides No-Response: a request in flight whose (remote, token) is used
+   again by a new request is cancelled and never gets a final response (the client gave the token a new meaning) *)
+Theorem C09_overridden_gets_none : forall srv s e r' post, Inv s -> fresh s (Req r' :: post) ->
+  find_by_key (key_of r') (s_incoming s) = Some e ->
+  finals_for (eid e) (run_sends srv s (Req r' :: post)) = [].
+Proof. exact overridden_gets_none. Qed.
+Print Assumptions C09_overridden_gets_none.
 (* every response — from a handler, an error renderer, or built from an exception — reaches the message layer with the
    request's No-Response option filled in if it had none, so suppression applies to all of them alike *)
 Theorem C09_no_response_filled_in : forall s r m last,
@@ -251,4 +307,24 @@ Proof.
   - split.
     + split; [vm_compute; repeat constructor; cbn; intuition|]. vm_compute. intros i [<-|[]] [H|[H|[]]]; discriminate.
     + vm_compute. split; [discriminate|]. split; [reflexivity|]. intros [H|[H|[]]]; discriminate.
+Qed.
+(* the wire-level statements on the concurrent scenario above, and a state in which the hypothesis of C09_overridden_gets_none holds *)
+Example C09_wire_example :
+  let a := ex_req 0 1 (Return (VMsg {| m_code := None; m_payload := [104]; m_cf := None; m_nr := None; m_obs := None |})) in
+  let b := ex_req 1 2 (Raise_ EOther) in
+  let c := ex_req 2 3 (Raise_ (cre E_BadRequest (CText [120]))) in
+  let evs := [Req a; Req b; Req c; Tick 100000; Done 1; Done 0; AckFrom 0; Done 2; AckFrom 0; AckFrom 0] in
+  NoDup (req_ids evs) /\ In (Req b) evs /\ finalising (Some ex_site) b /\ final_message (Some ex_site) b = Some bare_500 /\
+  map (fun id => map (fun w => (w_type w, w_code w, w_token w)) (answers id (wires (snd (run (Some ex_site) (init_state 500) evs))))) [0; 1; 2]
+  = [[(T_CON, 69, [1])]; [(T_CON, 160, [2])]; [(T_CON, 128, [3])]] /\
+  let s := fst (run (Some ex_site) (init_state 500) [Req a]) in
+  let a' := ex_req 7 1 (Raise_ EOther) in
+  Inv s /\ fresh s [Req a'; Done 0] /\ find_by_key (key_of a') (s_incoming s) = Some (new_entry a) /\
+  finals_for 0 (run_sends (Some ex_site) s [Req a'; Done 0]) = [] /\ finals_for 7 (run_sends (Some ex_site) s [Req a'; Done 0; Done 7]) = [bare_500].
+Proof.
+  cbv zeta. split; [vm_compute; repeat constructor; cbn; intuition discriminate|]. split; [cbn; tauto|]. split; [exact I|].
+  split; [reflexivity|]. split; [vm_compute; reflexivity|].
+  split; [split; [vm_compute; repeat constructor; cbn; intuition|vm_compute; repeat constructor]|].
+  split; [split; [vm_compute; repeat constructor; cbn; intuition|vm_compute; intros i [<-|[]] [H|[]]; discriminate]|].
+  split; [vm_compute; reflexivity|]. split; vm_compute; reflexivity.
 Qed.
